@@ -51,6 +51,12 @@ Allowed(e) ==
          /\ Near(e.min, IF e.a <= e.b THEN e.a ELSE e.b, 2) /\ Near(e.max, IF e.a >= e.b THEN e.a ELSE e.b, 2)
          /\ LET lo == IF e.a <= e.b THEN e.a ELSE e.b  hi == IF e.a >= e.b THEN e.a ELSE e.b IN
             Near(e.clamp, IF e.c < lo THEN lo ELSE IF e.c > hi THEN hi ELSE e.c, 2)
+    \* "arithx": e.ar, e.mulr, e.divr f32 records <<class, sign, significand, exponent>> of the angle in radians,
+    \* of a * k and of a / k with k = +-2^j: the same significand, the exponent moved by j, the sign flipped by k's
+    [] e.op = "arithx" ->
+         LET Scaled(r, d) == r[1] = 1 /\ r[2] = (e.ar[2] + e.neg) % 2 /\ r[3] = e.ar[3] /\ r[4] = e.ar[4] + d IN
+         /\ e.panic = 0
+         /\ e.ar[1] = 1 => (Scaled(e.mulr, e.j) /\ Scaled(e.divr, -e.j))
     [] e.op = "pyth" ->
          /\ e.panic = 0
          /\ Near(e.x * e.kd, e.R * e.cx * 1024, 3 * e.kd + e.R * 2) /\ Near(e.y * e.kd, e.R * e.sy * 1024, 3 * e.kd + e.R * 2)
@@ -90,7 +96,8 @@ Allowed(e) ==
          \* 999 = not finite): degrees = turns * 360 (2^8.49), radians = turns * 6.28 (2^2.65); a value is
          \* finite whenever its binade is below 2^127
          LET kt == CASE e.u = "turn" -> e.kx [] e.u = "deg" -> e.kx - 9 [] OTHER -> e.kx - 3     \* binade of the turns (+-1)
-             Fits(k, ob) == (k <= 125 => ob # 999) /\ (ob # 999 /\ ob # -999 => ob \in (k - 1)..(k + 1))
+             \* (neither overflow nor underflow while the binade is well inside the normal range)
+             Fits(k, ob) == (k <= 125 => ob # 999) /\ (k >= -120 => ob # -999) /\ (ob # 999 /\ ob # -999 => ob \in (k - 1)..(k + 1))
          IN /\ e.panic = 0
             /\ Fits(kt, e.et) /\ Fits(kt + 2, e.er - 1 + 1) /\ Fits(kt + 8, e.ed)
     [] e.op = "trig" ->
